@@ -68,6 +68,16 @@ def check_C18(ctx):
         reqs.append('GEN ' + files_req(c['mainf'], c['files']))
     for (m, f, meta) in bad:
         reqs.append('GEN ' + files_req(m, f))
+    # inputs that drive error paths and C-library state (errno after an overflowing conversion, huge literals in every
+    # literal position, absent files): whatever they leave behind must not show in later compilations
+    from checks import frontprops as _fp
+    for (m, f) in _fp.C02_CORPUS:
+        if b'$0 , $0' not in b''.join(f.values()):
+            reqs.append('GEN ' + files_req(m, f))
+    for lit in ('2147483647', '9223372036854775807', '9223372036854775808', '99999999999999999999', '340282366920938463463374607431768211456'):
+        for t in ('x0 := %s', 'x0 := x1 + %s', 'x0 := x1 - %s', 'IF x0 = %s THEN GOTO e; e: x0 := 1', 'PROGRAM f IN a DO x0 := a END x0 := RUN f WITH %s END',
+                  'DEFINE PRIO %s foo AS x0 := 1 END DEFINE foo', 'DEFINE foo <V> AS x0 := $%s END DEFINE foo 1', 'LOOP x0 DO x1 := %s END'):
+            reqs.append('GEN ' + files_req(b'm', {b'm': (t % lit).encode()}))
     order1 = list(range(len(reqs)))
     order2 = list(order1)
     r.shuffle(order2)
